@@ -525,6 +525,10 @@ func Render(s *Spec) *Rendered {
 			continue // no imports at all: everything it touches is declared in a.go
 		}
 		if s.InU {
+			if s.Mix.Mut {
+				// an import for which no driver holds a fact, ahead of the annotated package in import order
+				w.add(`import "unsafe"`)
+			}
 			if s.Spell == SpRenamedImp {
 				w.add(`import dd "ex.com/m/d"`)
 			} else if s.Spell == SpDotImport {
@@ -538,6 +542,9 @@ func Render(s *Spec) *Rendered {
 				w.add("var _ c.AN")
 			}
 			w.add("var _ e.T")
+			if s.Mix.Mut {
+				w.add("var _ unsafe.Pointer")
+			}
 			w.add("")
 			w.add("var _ = " + r.q + "GetP")
 			w.add("")
